@@ -298,9 +298,11 @@ class error_999_visitor(pyx12.error_visitor.error_visitor):
         """
         valid_IK3_codes = ('1', '2', '3', '4', '5', '6', '7', '8', 'I4', 'I6', 'I7', 'I8', 'I9')
         seg_base = pyx12.segment.Segment('IK3', '~', '*', ':')
-        seg_base.set('01', err_seg.seg_id)
+        # the identifier and the loop id come from the input: without this
+        # acknowledgement's own delimiters, which would add or split elements
+        seg_base.set('01', ''.join([c for c in (err_seg.seg_id or '') if not self._contains_delimiter(c)]))
         seg_base.set('02', '%i' % err_seg.seg_count)
-        if err_seg.ls_id:
+        if err_seg.ls_id and not self._contains_delimiter(err_seg.ls_id):
             seg_base.set('03', err_seg.ls_id)
         #else:
         #    seg_base.set('')
